@@ -174,8 +174,9 @@ def gen_arrow_spec(rng, opt=False):
 
 
 def _finish_opt(rng, spec):
-    """bounds: diag constraints get an upper bound a little above / below their start value (start need not be
-    feasible - SLSQP copes), everything else is bounded loosely (never active)."""
+    """bounds: diag constraints get an upper bound a little above their start value (the start point is feasible; the
+    objective's targets t pull the design against some of them), everything else is bounded loosely (never
+    active)."""
     vals, _ = arrow_eval(spec, spec['points'][0])
     kinds = {c['out']: c for c in spec['comps']}
     for r in spec['resps']:
@@ -184,7 +185,7 @@ def _finish_opt(rng, spec):
         c = kinds[r['name']]
         v = vals[r['name']] if r['idx'] is None else vals[r['name']][r['idx']]
         if c['kind'] == 'diag' and c['u'] in spec['xs']:
-            r['upper'] = [round(float(x) + rng.uniform(-0.15, 0.6), 3) for x in v]
+            r['upper'] = [round(float(x) + rng.uniform(0.02, 0.6), 3) for x in v]
             r['lower'] = None
         else:
             r['upper'] = [1e3] * len(v)
@@ -508,7 +509,7 @@ def build_arrow(spec, hook=None):
         else:
             kw['upper'] = 1e3
         m.add_constraint(r['name'], **kw)
-    prob.driver = om.ScipyOptimizeDriver(optimizer='SLSQP', tol=1e-11, maxiter=300, disp=False)
+    prob.driver = om.ScipyOptimizeDriver(optimizer='SLSQP', tol=1e-11, maxiter=100, disp=False)
     prob.driver.options['singular_jac_behavior'] = 'ignore'
     return prob
 
